@@ -189,12 +189,34 @@ def real_signal(ctx):
             return f
         p = uberjob.Plan()
         calls = []
+        # the functions in flight at the interrupt are not all plain functions: functools.partial objects and callable instances (neither has
+        # __name__ / __qualname__) every third trial
+        fkind = ("function", "partial", "callable object")[trial % 3]
+        ctx.count("real_signal_function_kind", fkind)
+
+        class CallMe:
+            def __init__(self, f):
+                self.f = f
+
+            def __call__(self, *a):
+                return self.f(*a)
+        import functools
+
+        def dress(f):
+            return f if fkind == "function" else functools.partial(f) if fkind == "partial" else CallMe(f)
         for i in range(ncalls):
             args = [rng.choice(calls)] if calls and rng.random() < 0.5 and not backlog else []
             if chain:
                 args = calls[-1:]
-            calls.append(p.call(mk(i), *args))
+            calls.append(p.call(dress(mk(i)), *args))
         obs = Obs()
+        # every fourth trial the bundled console display is attached instead of the recording observer (its update thread must be gone too)
+        use_console = trial % 4 == 3
+        if use_console:
+            from uberjob.progress import console_progress
+            import contextlib
+            import io
+            obs.entered = obs.exited = 1
         before = set(threading.enumerate())
         outcome = None
         tstop = []
@@ -213,7 +235,11 @@ def real_signal(ctx):
         sys.settrace(tracer)
         try:
             try:
-                uberjob.run(p, output=calls[-1] if chain else calls, max_workers=workers, progress=Progress(lambda: obs), **run_kw)
+                if use_console:
+                    with contextlib.redirect_stdout(io.StringIO()), contextlib.redirect_stderr(io.StringIO()):
+                        uberjob.run(p, output=calls[-1] if chain else calls, max_workers=workers, progress=console_progress, **run_kw)
+                else:
+                    uberjob.run(p, output=calls[-1] if chain else calls, max_workers=workers, progress=Progress(lambda: obs), **run_kw)
                 outcome = "returned"
             except KeyboardInterrupt:
                 outcome = "interrupted"
@@ -227,7 +253,8 @@ def real_signal(ctx):
         ctx.count("real_signal_shape", "chain" if chain else "backlog %r" % (backlog,) if backlog else "random")
         with lock:
             snap = list(log)
-        case = {"ncalls": ncalls, "workers": workers, "k": k, "outcome": outcome, "interrupting_call_lasts_seconds": long_call, "log": [(a, b) for a, b, _ in snap],
+        case = {"ncalls": ncalls, "workers": workers, "k": k, "outcome": outcome, "interrupting_call_lasts_seconds": long_call, "call_functions_are": fkind,
+                "progress": "console_progress" if use_console else "recording observer", "log": [(a, b) for a, b, _ in snap],
                 "log_index_when_stop_was_set": tstop}
         starts = [i for kind, i, _ in snap if kind == "start"]
         ends = [i for kind, i, _ in snap if kind == "end"]
